@@ -62,6 +62,21 @@ def fake_encoder(sim, kind):
     return Enc()
 
 
+_MULTI = {}
+
+
+def multi_definition_messages():
+    """messages of PGNs that have several encodable definitions (the encoder has to choose by PGN and id), two or three definitions each"""
+    if common.REPO not in _MULTI:
+        import enccorr
+        msgs, _ = enccorr.decoded_messages({"seed": 0, "tier": "quick", "repo": common.REPO}, 1, 77)
+        by = {}
+        for sfx, p, m in msgs:
+            by.setdefault(p["PGN"], []).append(m)
+        _MULTI[common.REPO] = [ms for pgn, ms in sorted(by.items()) if len(ms) >= 2]
+    return _MULTI[common.REPO]
+
+
 def make_msg(sid, npk=3, bad=False):
     from nmea2000.message import NMEA2000Message
     m = NMEA2000Message(PGN=127508)
@@ -108,6 +123,9 @@ async def base_session(sim, shape, inject):
             dr.cancel()
             await asyncio.gather(dr, return_exceptions=True)
         elif sim.conns and c.state.name == "CONNECTED":
+            if shape == "burst":
+                sim.feed(pk(5) + pk(6) + pk(7) + pk(8) + pk(9))      # a backlog: several packets in one read
+                await sim.settle(0.001)
             sim.feed(pk(1) + pk(2)[:5])
             await sim.settle(0.001)
             if sim.conns:
@@ -129,6 +147,33 @@ async def base_session(sim, shape, inject):
                     m._sid = 21 + j
                     await api("send", c.send(m))
                 c.encoder = fake_encoder(sim, kind)
+            if shape == "realmulti" and kind != "actisense":
+                # the real encoder, several definitions of one PGN one after the other through the client's one encoder object: every
+                # send must write what a fresh encoder (same sequence counter) produces for that message, or nothing if that refuses it
+                import copy
+                from nmea2000.encoder import NMEA2000Encoder
+                groups = multi_definition_messages()
+                rr = random.Random(sim.variant)
+                c.encoder = NMEA2000Encoder()
+                fn_name = {"ebyte": "encode_ebyte", "yd": "encode_yacht_devices", "waveshare": "encode_usb"}[kind]
+                seq = []
+                for g in rr.sample(groups, min(3, len(groups))):
+                    seq += rr.sample(g, min(len(g), 3))
+                for j, m0 in enumerate(seq):
+                    mm = copy.deepcopy(m0)
+                    mm.priority, mm.source, mm.destination = 3, 10 + j, 255
+                    mm._sid = 140 + j
+                    fresh = NMEA2000Encoder()
+                    fresh.sequence_counter = c.encoder.sequence_counter
+                    try:
+                        exp = [bytes(x) for x in getattr(fresh, fn_name)(mm)]
+                    except Exception:
+                        exp = None
+                    sim.expected_packets[mm._sid] = exp
+                    for i, b in enumerate(exp or []):
+                        sim.packet_ids[b] = (mm._sid, i)
+                    await api("send", c.send(mm))
+                c.encoder = fake_encoder(sim, kind)
             if shape in ("send", "send2"):
                 sends = [api("send", c.send(make_msg(1, 3)))]
                 if shape == "send2":
@@ -144,6 +189,8 @@ async def base_session(sim, shape, inject):
                 sim.feed(raising_packet(kind) + pk(3))
             await sim.settle(0.02)
         await sim.settle(12.0)      # long enough for the retry machinery to come back whatever happened
+        if getattr(sim, "long", False):
+            await sim.settle(35.0)  # … also after the 30 s pause of a busy gateway
         if sim.conns and c.state.name == "CONNECTED":
             sim.feed(pk(4))
             await sim.settle(0.02)
@@ -164,8 +211,17 @@ async def base_session(sim, shape, inject):
                     pass
         await sim.settle(0.05)
         # snapshot before the harness tears the loop down: which of the client's background tasks are still alive
-        sim.tasks_alive = [name for name in ("_receive_task", "_process_queue_task")
+        sim.tasks_alive = [name for name in ("_receive_task", "_process_queue_task", "_reconnect_task", "_seed_task")
                            if getattr(c, name, None) is not None and not getattr(c, name).done()]
+        # … and any other task the client started that is still pending (whatever attribute it is kept in, if any)
+        for t in asyncio.all_tasks():
+            q = getattr(t.get_coro(), "__qualname__", "")
+            nm = q.split(".")[-1]
+            own = ("AsyncIOClient." in q or "Nmea2000Gateway." in q) and nm not in ("connect", "send", "close")
+            wrapped = "Sim.start.<locals>." in q and nm in ("receive_loop", "reconnect")
+            if not t.done() and t is not asyncio.current_task() and (own or wrapped):
+                if not any(nm.strip("_").replace("_loop", "") in a for a in sim.tasks_alive):
+                    sim.tasks_alive.append(nm)
         sim.stop()
     return sim
 
@@ -196,6 +252,16 @@ def injector(action, ticks=None, at=None):
             sim.feed(bytes([0x55, 0xaa, 0x0a, 0x41, 0x20, 0x0d, 0x0a, 0xff] * 3))
             await sim.ticks(2)
             sim.eof()
+        elif action == "busy" and sim.conns:
+            sim.busy()
+        elif action == "eof-close" and sim.conns:
+            # the link is lost, and the application gives up while the client is still trying to get it back
+            sim.eof()
+            await sim.pause(sim.close_after)
+            try:
+                await c.close()
+            except Exception as e:
+                sim.emit(f"apiRaised close {type(e).__name__}")
         elif action == "connect":
             try:
                 await c.connect()
@@ -238,6 +304,34 @@ def scenarios(ctx):
                         out.append(dict(kind=kind, shape=shape, connect=["ok"], action=action, point=[kindp, v], cb="ok", status="ok", drain=["stuck"]))
             for stm in ("ok", "slow"):
                 out.append(dict(kind=kind, shape="flap", connect=["ok"], action="none", point=["ticks", 0], cb="ok", status=stm, drain=None))
+        if kind in ("ebyte", "yd", "waveshare"):
+            # with the network map on, the client seeds it by itself: a background task that sleeps and sends for 6 s after every connect
+            for action in ("close", "eof", "none", "readerr"):
+                for kindp, v in [("ticks", 5), ("at", 0.4), ("at", 2.0), ("at", 5.0), ("at", 9.0)]:
+                    out.append(dict(kind=kind, shape=rnd.choice(["plain", "send"]), connect=["ok"], action=action, point=[kindp, v], cb="ok", status="ok", drain=None, client={"build_network_map": True}))
+        if kind != "actisense":
+            for variant in range(12):
+                out.append(dict(kind=kind, shape="realmulti", connect=["ok"], action=rnd.choice(["none", "none", "eof"]), point=["at", rnd.choice([0.4, 2.0, 9.0])], cb="ok", status="ok", drain=None, variant=variant))
+        # connect failures that are OSErrors but not ConnectionErrors
+        for cs in (["unreachable", "unreachable", "ok"], ["ok", "unreachable", "ok"]):
+            for action in ("none", "eof", "close"):
+                for kindp, v in [("ticks", 6), ("at", 0.4), ("at", 2.0)]:
+                    out.append(dict(kind=kind, shape="plain", connect=cs, action=action, point=[kindp, v], cb="ok", status="ok", drain=None))
+        # a backlog in the queue when the callback closes, raises or is slow
+        for cbm in ("close", ["ok", "close"], ["ok", "ok", "close"], ["ok", "raise", "close"], "slow", ["slow", "close"]):
+            for action in ("none", "eof"):
+                for kindp, v in [("ticks", 6), ("at", 0.4)]:
+                    out.append(dict(kind=kind, shape="burst", connect=["ok"], action=action, point=[kindp, v], cb=cbm, status="ok", drain=None))
+        if kind == "ebyte":
+            # the gateway is busy ('Sorry,Limited'): 30 s pause, then the link is given up and re-established
+            for kindp, v in [("ticks", 6), ("at", 0.003), ("at", 0.4), ("at", 2.0)]:
+                for stm in ("ok", "slow", "raise"):
+                    out.append(dict(kind=kind, shape="plain", connect=["ok"], action="busy", point=[kindp, v], cb="ok", status=stm, drain=None, long=True))
+        # close() while the reconnect task waits, connects, or sleeps between two refused attempts
+        for delay in (0.2, 0.5, 0.7, 1.2, 2.5):
+            for kindp, v in [("ticks", 6), ("at", 0.4)]:
+                for cs in (["ok", "refuse", "refuse", "refuse", "refuse", "ok"], ["ok", ["slow", 5], "ok"]):
+                    out.append(dict(kind=kind, shape="plain", connect=cs, action="eof-close", point=[kindp, v], cb="ok", status="ok", drain=None, close_after=delay))
     rnd.shuffle(out)
     return out
 
@@ -252,7 +346,10 @@ def run_scenario(sc):
     kindp, v = sc["point"]
 
     sim = clientsim.Sim(sc["kind"], connect_script=[tuple(x) if isinstance(x, list) else x for x in sc["connect"]], cb_mode=sc["cb"], status_mode=sc["status"],
-                        drain_script=sc.get("drain"))
+                        drain_script=sc.get("drain"), **(sc.get("client") or {}))
+    sim.close_after = sc.get("close_after", 1.0)
+    sim.long = sc.get("long", False)
+    sim.variant = sc.get("variant", 0)
 
     async def go():
         inj = injector(sc["action"], ticks=v if kindp == "ticks" else None, at=v if kindp == "at" else None)
@@ -369,6 +466,11 @@ def c12_session(kind, packets, reads, cb_mode, eof=False, sim=None):
             seen = []
             orig = c.decoder.decode_usb
             c.decoder.decode_usb = lambda pkt: (sim.read_log.append((1, bytes(pkt))), orig(pkt))[1]
+        sim.decoder_inputs = []         # text clients: the strings handed to the decoder (after the client's own decoding and stripping)
+        for meth in ("decode_actisense_string", "decode_yacht_devices_string"):
+            def wrapd(orig):
+                return lambda line: (sim.decoder_inputs.append(line), orig(line))[1]
+            setattr(c.decoder, meth, wrapd(getattr(c.decoder, meth)))
         await c.connect()
         await sim.settle(0.001)
         for r in reads:
@@ -446,7 +548,11 @@ def suite_framing(ctx, n=None):
         # and then b'': neither is a packet; whether the client treats them as one shows in the delivery comparison below)
         got = ",".join(harness.hx(b) for c_, b in sim.read_log if c_ == 1 and not (eof and kind in ("yd", "actisense") and not b.endswith(b"\n")))
         cmd = {"ebyte": "reader.feed13", "yd": "reader.lines", "actisense": "reader.lines"}.get(kind)
-        if cmd:
+        if cmd == "reader.lines":
+            # the text clients: what reaches the decoder is the model's lines, each decoded as UTF-8 (invalid bytes dropped) and stripped;
+            # the unterminated rest at the end of the stream is not a line
+            s.add(f"{cmd} {','.join(harness.hx(r) for r in reads)}", None, kind, meta=("lines", "\x00".join(getattr(sim, "decoder_inputs", []))))
+        elif cmd:
             s.add(f"{cmd} {','.join(harness.hx(r) for r in reads)}", None, kind, meta=("prefix", got))
         else:
             s.add(f"serial.trace {','.join(harness.hx(r) for r in reads)}", None, kind, meta=("serial", got))
@@ -469,6 +575,8 @@ def suite_framing(ctx, n=None):
             model = ",".join(x for step in resp.split(",") for x in step.split("/")[1].split(";") if x)
         else:
             model = resp.split(" ", 1)[1] if " " in resp else ""
+        if meta[0] == "lines":
+            model = "\x00".join(bytes.fromhex(x).decode("utf-8", errors="ignore").strip() for x in model.split(",") if x)
         if model != meta[1]:
             s.disagreements.append({"request": req, "implementation": meta[1], "model": model, "meta": None})
     s.exp = [m[1] for m in s.meta]
@@ -503,7 +611,7 @@ def monitor(sim, sc):
     for i, e in enumerate(ev):
         if e == "connCall":
             pass
-        if e.startswith("implStart") and i > 0 and ev[i - 1] == "connCall":
+        if e.startswith("implStart") and i > 0 and ev[i - 1] in ("connCall", "reconnCall"):
             k = 0
         if e == "implFail" or e.startswith("cfgFail"):
             k += 1
@@ -520,7 +628,7 @@ def monitor(sim, sc):
     for i, e in enumerate(ev):
         if e == "status DISCONNECTED" and sc["status"] != "connect-on-disconnect" and sc["action"] != "connect":     # (a connect() the application itself issues is not a retry)
             j = next((k for k in range(i + 1, len(ev)) if ev[k].startswith("implStart")), None)
-            if j is not None and not any(x.startswith("sleep") and int(x.split()[1]) > 0 for x in ev[i:j]):
+            if j is not None and not any(x.startswith(("sleep", "reconnSleep")) and int(x.split()[1]) > 0 for x in ev[i:j]):
                 out.append(("C13", "zero-delay", "a connection attempt follows a DISCONNECTED report without any wait (a gateway that accepts and drops is reconnected to in a tight loop)"))
                 break
     # C13: attempts are never closer together than the smallest retry delay, however many senders report the fault
@@ -540,6 +648,17 @@ def monitor(sim, sc):
         if closed_idx is None or closed_idx > r:
             if [x.split()[2:] for x in ev[j:r] if x.startswith("write ")] != [["15", "0"], ["15", "1"]] and not any(x.startswith(("writeFail", "drainFail")) for x in ev[j:r]):
                 out.append(("C19", "send-incomplete", f"a message sent while CONNECTED was not written in full: {ev[j:r + 1]}"))
+    # C19: what a send writes is what the encoder produces for that message (a fresh encoder in the same counter state), whatever the
+    # client's encoder has encoded before; a message the encoder refuses writes nothing
+    for sid, exp in getattr(sim, "expected_packets", {}).items():
+        if f"sendCall {sid}" not in ev or (closed_idx is not None and closed_idx < ev.index(f"sendCall {sid}")):
+            continue
+        wrote = [b for c_, b, cur in sim.raw_writes if cur == sid]
+        failed = any(x.startswith(("writeFail", "drainFail")) for x in ev[ev.index(f"sendCall {sid}"):])
+        if wrote != (exp or []) and not (failed and wrote == (exp or [])[:len(wrote)]):
+            out.append(("C19", "wrong-packets", f"message {sid} (real encoder, after other definitions of its PGN went through the client's encoder): wrote {[w.hex() for w in wrote]}, "
+                                                f"a fresh encoder produces {[w.hex() for w in exp] if exp is not None else 'nothing (it refuses the message)'}"))
+            break
     # C13: the receive path gives other tasks a turn: frames that are already buffered are not all processed in one event-loop step
     its = getattr(sim, "recv_loop_iters", [])
     run = 1
@@ -601,12 +720,12 @@ def monitor(sim, sc):
             sid = e.split()[1]
             j = next((j for j in range(i, len(ev)) if ev[j] == f"sendReturn {sid}"), len(ev))
             if closed_idx is None or closed_idx > j:
-                if any(x.startswith(("status", "connCall", "write ")) for x in ev[i:j]) or f"sendBad {sid}" not in ev[i:j]:
+                if any(x.startswith(("status", "connCall", "reconn", "write ")) for x in ev[i:j]) or f"sendBad {sid}" not in ev[i:j]:
                     out.append(("C19", "unsendable-not-harmless", f"an unsendable message was not simply refused: {ev[i:j + 1]}"))
         if e.startswith("sendBad"):
             sid = e.split()[1]
             j = next((j for j in range(i, len(ev)) if ev[j] == f"sendReturn {sid}"), len(ev))
-            if any(x.startswith(("status", "write ", "connCall")) and (not x.startswith("write") or x.split()[2] == sid) for x in ev[i:j]):
+            if any(x.startswith(("status", "write ", "connCall", "reconn")) and (not x.startswith("write") or x.split()[2] == sid) for x in ev[i:j]):
                 out.append(("C19", "unsendable-not-harmless", f"an unsendable message changed the connection: {ev[i:j + 1]}"))
     return out
 
